@@ -14,7 +14,8 @@ extern "C" {
 #endif
 
 /* option encoding: 0..MAXT-1 = run thread t; 100+t = fire the timeout of thread t's timed wait;
-   200+i = i-th alternative of an explicit choice point (cond_signal waiter choice, harness choice). */
+   200+i = i-th alternative of an explicit choice point (cond_signal waiter choice, harness choice);
+   300+t = spurious wake-up of thread t's condition wait (only with SCHED_SPURIOUS=<budget>, one deviation each). */
 struct sched_point {
   int16_t cur;            /* running thread at this point */
   int8_t  curen;          /* is `cur` itself still enabled (a switch away is then a preemption) */
